@@ -51,7 +51,7 @@ let run () =
               if ups <> [] then step (MGrow (nat k, List.rev_map zi ups)) "growth";
               if downs <> [] then diverge "taking memory returned a block upstream" line
             end
-          | "rel" :: k :: _, _ ->
+          | ("rel" | "relp") :: k :: _, _ ->
             if not !source then begin
               List.iter (fun b -> (match mstep !w (MDrop (nat k, zi b)) with Some (w', _) -> w := w' | None -> diverge (Printf.sprintf "block %d returned upstream is not owned by the object it was released through" b) line)) downs;
               if ups <> [] then diverge "releasing memory acquired a block" line
